@@ -9,6 +9,7 @@ import (
 	"reflect"
 	"sort"
 
+	"github.com/New-JAMneration/JAM-Protocol/internal/service_account"
 	"github.com/New-JAMneration/JAM-Protocol/internal/types"
 	"github.com/New-JAMneration/JAM-Protocol/internal/utilities/merklization"
 	"github.com/New-JAMneration/JAM-Protocol/internal/zzverif/sim"
@@ -536,7 +537,69 @@ func checkC35(r *sim.Run, b *chainBlock, prior, post *types.State) {
 
 // ---- C31 (admission and integration; the pure lookup function is not decided) -------------------
 
+// refAvailableAt: t lies in one of the availability intervals the recorded slots describe
+// ([x] -> [x,inf); [x,y] -> [x,y); [x,y,z] -> [x,y) and [z,inf)).
+func refAvailableAt(l types.TimeSlotSet, t types.TimeSlot) bool {
+	switch len(l) {
+	case 1:
+		return t >= l[0]
+	case 2:
+		return t >= l[0] && t < l[1]
+	case 3:
+		return (t >= l[0] && t < l[1]) || t >= l[2]
+	}
+	return false
+}
+
+// checkHistoricalLookup evaluates the repository's historical lookup on every stored preimage of the reached state,
+// at the boundaries of its recorded slots (a by-product of the histories: the function itself is pure).
+func checkHistoricalLookup(r *sim.Run, b *chainBlock, post *types.State) {
+	var sids []types.ServiceID
+	for sid := range post.Delta {
+		sids = append(sids, sid)
+	}
+	sort.Slice(sids, func(i, j int) bool { return sids[i] < sids[j] })
+	for _, sid := range sids {
+		ac := post.Delta[sid]
+		var keys []types.LookupMetaMapkey
+		for key := range ac.LookupDict {
+			keys = append(keys, key)
+		}
+		sort.Slice(keys, func(i, j int) bool { return bytes.Compare(keys[i].Hash[:], keys[j].Hash[:]) < 0 })
+		for _, key := range keys {
+			slots := ac.LookupDict[key]
+			blob, stored := ac.PreimageLookup[key.Hash]
+			if !stored || types.U32(len(blob)) != key.Length {
+				continue
+			}
+			times := []types.TimeSlot{0, post.Tau, post.Tau + 1000}
+			for _, s := range slots {
+				times = append(times, s, s+1)
+				if s > 0 {
+					times = append(times, s-1)
+				}
+			}
+			for _, t := range times {
+				got := service_account.HistoricalLookup(ac, t, key.Hash)
+				want := refAvailableAt(slots, t)
+				r.Count("probe:historical_lookup_evaluated", 1)
+				if len(slots) == 3 {
+					r.Count("probe:historical_lookup_on_three_slot_entry", 1)
+				}
+				if want != (got != nil) || (want && !bytes.Equal(got, blob)) {
+					r.Violate("C31", "lookup", fmt.Sprintf("historical-lookup-wrong:%d-slots", len(slots)), "block depth %d: service %d preimage %x with recorded slots %v: historical lookup at time %d returns %d octets (nil=%v), the availability intervals say available=%v", b.depth, sid, key.Hash[:4], []types.TimeSlot(slots), t, len(got), got == nil, want)
+					return
+				}
+			}
+		}
+	}
+}
+
 func checkC31(r *sim.Run, b *chainBlock, prior, post *types.State) {
+	checkHistoricalLookup(r, b, post)
+	if r.Violated() {
+		return
+	}
 	ext := b.block.Extrinsic.Preimages
 	for i := 1; i < len(ext); i++ {
 		if ext[i-1].Requester > ext[i].Requester || (ext[i-1].Requester == ext[i].Requester && bytes.Compare(ext[i-1].Blob, ext[i].Blob) >= 0) {
